@@ -206,6 +206,7 @@ func runC10(w *World) *Result {
 	r.Rule("R-C10-prefix", "imported names are kept apart by a prefix that is a digest of the whole file content, so behaviour does not depend on which names two imported files share", 1)
 	PrefixDigestRule(w, r, "R-C10-prefix", nil)
 	c09PrefixApplied(w, r, "R-C10-prefix")
+	prefixSpellable(w, r, "R-C10-prefix")
 	r.Rule("R-C10-redecl", "a name that is already visible is rejected as a new variable on every path (no second variable under a spelling that is emitted as one shell name)", 1)
 	if cf, err := buildCtxFacts(w); err == nil {
 		NewnessStrictRule(w, cf, r, "R-C10-redecl")
